@@ -174,6 +174,16 @@ def serde_corr(env: Env, out: Outcome, n: int, stability_sig: str | None = None)
     try:
         for _ in range(n):
             st = g.state(illformed=False)
+            if g.rng.random() < 0.3:
+                # an invocation RUNNING and another QUEUED for the same step with equal events (repeated batch items,
+                # payload-less ticks): two invocations, both must survive the round trip
+                from workflows.runtime.types.internal_state import EventAttempt
+                cands = [w for w in st.workers.values() if w.in_progress]
+                if cands:
+                    w = g.rng.choice(cands)
+                    ip = g.rng.choice(w.in_progress)
+                    w.queue.insert(g.rng.randrange(len(w.queue) + 1), EventAttempt(event=ip.event))
+                    out.count("serde:queued_equals_running")
 
             def base(_wf: Any, st: Any = st) -> Any:
                 return BrokerState(is_running=False, config=st.config,
@@ -191,6 +201,11 @@ def serde_corr(env: Env, out: Outcome, n: int, stability_sig: str | None = None)
                 ops.append("serde")
                 exp.append(enc.state(cur))
                 rts.append(exp[-1])
+            lost = sum(len(w.queue) + len(w.in_progress) for w in st.workers.values()) - sum(len(w.queue) + len(w.in_progress) for w in cur.workers.values())
+            if stability_sig is not None and lost != 0:
+                out.violations.append(Violation("C12/pending_invocation_count_changed",
+                                                f"{lost} queued/in-progress invocation(s) disappeared across to_serialized -> from_serialized",
+                                                {"state": ops[-3][:6000], "cfg": ops[-4][:2000]}))
             if stability_sig is not None and rts[0] != rts[1]:
                 # the property's own clause, on the implementation alone: one round trip must be a fixed point
                 i = 0
